@@ -156,3 +156,19 @@ func c09attr(inPlace bool) {
 
 func H_C09_Attr()    { c09attr(false) }
 func H_C09_AddAttr() { c09attr(true) }
+
+// H_C09_Triple: exactness is a statement about the returned list, so it must still hold after the same receiver has
+// been used in a later union / add with a third list (the receiver's slices have spare capacity, as lists built with
+// AddRootNode / AddEdge do).
+func H_C09_Triple() {
+	a := c12hist("a", "n0")
+	b := c12hist("b", []string{"n0", "n1"}[rt.NondetChoice("bshares", 2)])
+	c := c12hist("c", []string{"n0", "n2"}[rt.NondetChoice("cshares", 2)])
+	sa, sb, sc := cloneList(a), cloneList(b), cloneList(c)
+	ab := a.Union(b)
+	ac := a.Union(c)
+	unionExact(ab, sa, sb, "C09.triple.first")
+	unionExact(ac, sa, sc, "C09.triple.second")
+	a.Add(c)
+	unionExact(ab, sa, sb, "C09.triple.afteradd")
+}
